@@ -275,10 +275,23 @@ func shortVal(s string) string {
 // checkOutputNodesGate: the visitor of GetOutputNodes admits an element only if it is the walk
 // root or (not script/style and probably visible).
 func checkOutputNodesGate(p *core.Program, r *core.Report, rule string) {
-	fn := mustInl(p, r, rule, domutilPkg+".GetOutputNodes$1")
-	if fn == nil {
+	// the visitor is whatever GetOutputNodes hands to WalkNodes as its visit callback (a closure,
+	// a method value of a collector, a named function)
+	gon := mustInl(p, r, rule, domutilPkg+".GetOutputNodes")
+	if gon == nil {
 		return
 	}
+	var fn *ssa.Function
+	for _, call := range core.Calls(gon, func(ci ssa.CallInstruction) bool { return core.IsCallTo(ci, domutilPkg+".WalkNodes") }) {
+		if t := funcValueTarget(call.Common().Args[1]); t != nil && len(t.Blocks) > 0 {
+			fn = p.Inlined(t)
+		}
+	}
+	if fn == nil {
+		r.Undecided(rule, "GetOutputNodes visitor", "the visit callback handed to WalkNodes cannot be resolved to a function")
+		return
+	}
+	N := fmt.Sprintf("$%d", paramIndexOfType(fn, "*html.Node"))
 	opts := core.DecisionOpts{Outcome: func(in ssa.Instruction, c *core.Canon) (string, bool) {
 		if ret, ok := in.(*ssa.Return); ok {
 			return "return " + c.Of(ret.Results[0]), true
@@ -297,22 +310,25 @@ func checkOutputNodesGate(p *core.Program, r *core.Report, rule string) {
 		r.Undecided(rule, "GetOutputNodes visitor", err.Error())
 		return
 	}
+	// the walk root: a captured variable of the closure or a node field of the collector
+	rootRef := `(\*?\^\d+|\$0\.‹\*html\.Node›)`
+	nq := regexp.QuoteMeta(N)
 	spec := core.DecisionSpec{
 		Atoms: map[string]string{
-			"text":    q(`$0.Type == html.TextNode`),
-			"element": q(`$0.Type == html.ElementNode`),
-			"root":    q(`$0 == *^1`),
-			"script":  q(`dom.TagName($0) == "script"`),
-			"style":   q(`dom.TagName($0) == "style"`),
-			"visible": q(`domutil.IsProbablyVisible($0)`),
+			"text":    q(N + `.Type == html.TextNode`),
+			"element": q(N + `.Type == html.ElementNode`),
+			"root":    `^(` + nq + ` == ` + rootRef + `|` + rootRef + ` == ` + nq + `)$`,
+			"script":  q(`dom.TagName(` + N + `) == "script"`),
+			"style":   q(`dom.TagName(` + N + `) == "style"`),
+			"visible": q(`domutil.IsProbablyVisible(` + N + `)`),
 		},
 		Rules: []core.SpecRule{
-			{Name: "text node: collected", Guard: core.A("text"), Outcome: "collect {$0} => return false"},
+			{Name: "text node: collected", Guard: core.A("text"), Outcome: "collect {" + N + "} => return false"},
 			{Name: "not an element (comment, doctype): dropped", Guard: core.Not(core.A("element")), Outcome: "return false"},
-			{Name: "the root chosen by the caller: collected", Guard: core.A("root"), Outcome: "collect {$0} => return true"},
+			{Name: "the root chosen by the caller: collected", Guard: core.A("root"), Outcome: "collect {" + N + "} => return true"},
 			{Name: "script: dropped with its subtree", Guard: core.A("script"), Outcome: "return false"},
 			{Name: "style: dropped with its subtree", Guard: core.A("style"), Outcome: "return false"},
-			{Name: "visible descendant: collected and walked", Guard: core.A("visible"), Outcome: "collect {$0} => return true"},
+			{Name: "visible descendant: collected and walked", Guard: core.A("visible"), Outcome: "collect {" + N + "} => return true"},
 			{Name: "hidden descendant: dropped with its subtree", Guard: core.True(), Outcome: "return false"},
 		},
 	}
